@@ -35,6 +35,12 @@ CHECKS["C01"] = dict(
    note="Differential oracle, no model. Sound reuse of parent objects by children; a failure is replayed from scratch (or, if it only reproduces with sibling steps, with the complete search history) before it is reported.",
    design="5/C01")
 
+CHECKS["C06"] = dict(
+   technique="bounded-exhaustive enumeration of instruction programs x frame variants x FilteredApply clauses; sequential row-wise reference model",
+   text="Every instruction list of length <= 2 (quick; 3 over a reduced alphabet in thorough) over ~150 instructions covering every instruction shape and supported function signature with overlapping sources and destinations, on 8 frame variants (five physical index shapes and frames produced by Aggregate, Select and Copy), the same programs under 6 FilteredApply clauses, and WithRowNums; names, positions, types and every cell of the result are compared with the model, zero-argument functions additionally by call count.",
+   note="Trusted: model/apply.go. Three recorded defects of FilteredApply (constant, column copy and enum ToUpper instructions ignore the filter) are attributed by model switches and printed as KNOWN-FINDING; any other discrepancy is a violation.",
+   design="5/C06")
+
 NOT_YET = {}
 BASELINE_CMD = "for m in $(cat /w/out/gomods.txt); do MF=$(cd /repo/$m && . /w/out/goenv.sh && gomodflag); (cd /repo/$m && go test $MF -json -vet=off -count=1 -timeout 25m ./...); done"
 
